@@ -37,6 +37,27 @@ func (t *gtree) text(varPath func(i int) string) string {
 	return "{" + strings.Join(parts, ",") + "}"
 }
 
+// value: the truth value of the tree under the assignment (bit i = variable i): AND unless the keyword is OR
+func (t *gtree) value(asg int) bool {
+	if t.leaf >= 0 {
+		return asg&(1<<t.leaf) != 0
+	}
+	if t.kw == "OR" {
+		for _, k := range t.kids {
+			if k.value(asg) {
+				return true
+			}
+		}
+		return false
+	}
+	for _, k := range t.kids {
+		if !k.value(asg) {
+			return false
+		}
+	}
+	return true
+}
+
 func (t *gtree) groups() int {
 	if t.leaf >= 0 {
 		return 0
@@ -74,7 +95,7 @@ func enumTrees(depth, width, nvars int) []*gtree {
 }
 
 func c03(c *Ctx) {
-	c.Rule = "exhaustive: all group trees of depth<=2, width<=2 (thorough: width<=3) over 2 (thorough: 3) boolean variables x keyword in {AND,OR,omitted} x all truth assignments x 4 placements (top level, nested, filter body, function argument); random: trees of depth<=5 with comparison leaves over random data. Non-trivial = the tree has at least one operand; distinct by (query, data)."
+	c.Rule = "exhaustive: all group trees of depth<=2, width<=2 (thorough: width<=3) over 2 (thorough: 3) boolean variables x keyword in {AND,OR,omitted} x all truth assignments x 4 placements (top level, nested, filter body, function argument), and once more at top level and as a filter body with every leaf spelled as an operand that is boolean by its data (First / Last / Index of an array of booleans, Equal(true), Not().Not()) against a truth-table oracle; random: trees of depth<=5 with comparison leaves over random data. Non-trivial = the tree has at least one operand; distinct by (query, data)."
 	c.Exhaust = true
 	nvars, width := 2, 2
 	if c.Thorough() {
@@ -115,6 +136,54 @@ func c03(c *Ctx) {
 			body = "[" + body[1:len(body)-1] + "]"
 			doc3 := h.Obj("arr", h.SliceAny(h.Obj(kv...)))
 			c.AddEval("$.arr"+body+".Count()", doc3, "filter-body", false, nontriv)
+			// operands that are boolean by their DATA rather than by their last step: First / Last / Index
+			// of an array of booleans, a comparison, a double negation — one spelling per leaf, at random
+			if nontriv {
+				spell := func(root string) func(i int) string {
+					return func(i int) string {
+						switch c.Rng.Intn(6) {
+						case 0:
+							return fmt.Sprintf("%s.f%d.First()", root, i)
+						case 1:
+							return fmt.Sprintf("%s.f%d.Last()", root, i)
+						case 2:
+							return fmt.Sprintf("%s.f%d.Index(1)", root, i)
+						case 3:
+							return fmt.Sprintf("%s.v%d.Equal(true)", root, i)
+						case 4:
+							return fmt.Sprintf("%s.v%d.Not().Not()", root, i)
+						}
+						return fmt.Sprintf("%s.v%d", root, i)
+					}
+				}
+				kv2 := append([]any{}, kv...)
+				for v := 0; v < nvars; v++ {
+					b := h.Bool(asg&(1<<v) != 0)
+					kv2 = append(kv2, fmt.Sprintf("f%d", v), h.SliceAny(b, b))
+				}
+				want := t.value(asg)
+				check := func(ec *EvalCase, render func(bool) string) {
+					ec.Check = func(o h.Outcome) string {
+						if o.Class != "ok" || h.Abs(o.Val) != render(want) {
+							got := o.Class
+							if o.Val != nil {
+								got += " " + short(h.Abs(o.Val))
+							}
+							return fmt.Sprintf("the group is %v under this assignment; got %s", want, got)
+						}
+						return ""
+					}
+				}
+				check(c.AddEval(t.text(spell("$")), h.Obj(kv2...), "data-boolean-operands:top", false, true), func(b bool) string { return fmt.Sprint(b) })
+				body2 := t.text(spell("@"))
+				body2 = "[" + body2[1:len(body2)-1] + "]"
+				check(c.AddEval("$.arr"+body2+".Count()", h.Obj("arr", h.SliceAny(h.Obj(kv2...))), "data-boolean-operands:filter", false, true), func(b bool) string {
+					if b {
+						return "n:1e0"
+					}
+					return "n:0e0"
+				})
+			}
 		}
 	}
 	c.RunEvalCases()
